@@ -234,10 +234,14 @@ CHECKS = {
          "index; append adds at the end; any rendering distributes over the pieces, so exactly the target's span of text changes. "
          "Through enclosing nodes (all trees): a Wikicode in any place __children__ yields, at any depth, is rendered verbatim once "
          "between a prefix and a suffix independent of it, so an edit of a nested list changes exactly its span of the page text. "
-         "The list-level model is the one tied to /repo in C11. String targets are checked by an oracle on parsed trees (targets at "
-         "any depth located by identity, equal-text nodes, foreign nodes, indices, strings, section views held and used as targets).",
+         "String targets with exact matches in one node list (a model of the right-to-left scan of _do_weak_search): the result is the list "
+         "with n >= 1 disjoint occurrences of the pattern replaced and every other node kept in order; ValueError exactly when the pattern "
+         "is empty or occurs nowhere; in the text exactly those occurrences change - tied to /repo by running the real string-target calls "
+         "and the extracted model on the same lists. The list-level model is the one tied to /repo in C11. The inexact string fall-back is "
+         "checked by an oracle on parsed trees (targets at any depth located by identity, equal-text nodes, foreign nodes, indices, strings, "
+         "section views held and used as targets or as values).",
     design_ref="DESIGN.md section 5, C08",
-    note="Trusted: as C11/C13, C09 (children_of tie); string targets are testing. No axioms.",
+    note="Trusted: as C11/C13, C09 (children_of tie); node equality '==' modelled as an arbitrary boolean relation; the inexact string path is testing. No axioms.",
     technique="Coq proof (list decomposition at the found index, induction over the inserted nodes) + edit oracle on parsed trees"),
 }
 
